@@ -322,6 +322,85 @@ fn step(w: &mut World, rec: &mut Recorder, cfg: &MatrixCfg, n: &mut usize, ix: I
     ex.ok()
 }
 
+/// C19: setters and initialisers with argument values at, just inside, just outside their bounds and at the type maximum.
+fn bounds_probes(w: &mut World, rec: &mut Recorder) {
+    let tag = |what: &str, v: u64| json!({"probe": true, "kind": "bounds", "what": what, "value": v});
+    for v in [0u16, 59_999, 60_000, 60_001, u16::MAX] {
+        let ix = w.ix_set_fee_rate("P1", v);
+        probe_ix(w, rec, &ix, tag("set_fee_rate", v as u64));
+        let ix = w.ix_set_default_fee_rate("C1", 64, v);
+        probe_ix(w, rec, &ix, tag("set_default_fee_rate", v as u64));
+        let ix = w.ix_set_default_base_fee_rate("C1", 1024, v);
+        probe_ix(w, rec, &ix, tag("set_default_base_fee_rate", v as u64));
+        let d = w.pool_fee_tier_delegate("PA");
+        let ix = w.ix_set_fee_rate_by_delegated("PA", d, v);
+        probe_ix(w, rec, &ix, tag("set_fee_rate_by_delegated", v as u64));
+        let mut c = w.clone();
+        let ix = c.ix_init_fee_tier("C1", 2 + (v % 7), v);
+        probe_ix(&c, rec, &ix, tag("initialize_fee_tier", v as u64));
+        let mut c = w.clone();
+        let f = c.funder;
+        let ix = c.ix_init_adaptive_fee_tier("C1", 3000 + (v % 7), 64, f, f, v, &af_default());
+        probe_ix(&c, rec, &ix, tag("initialize_adaptive_fee_tier", v as u64));
+    }
+    for v in [0u16, 2_499, 2_500, 2_501, u16::MAX] {
+        let ix = w.ix_set_protocol_fee_rate("P1", v);
+        probe_ix(w, rec, &ix, tag("set_protocol_fee_rate", v as u64));
+        let ix = w.ix_set_default_protocol_fee_rate("C1", v);
+        probe_ix(w, rec, &ix, tag("set_default_protocol_fee_rate", v as u64));
+    }
+    // tick spacing 0 and price bounds at pool creation
+    {
+        let mut c = w.clone();
+        let ix = c.ix_init_fee_tier("C1", 0, 100);
+        probe_ix(&c, rec, &ix, tag("initialize_fee_tier_spacing0", 0));
+    }
+    for (i, p) in [MIN_SQRT_PRICE - 1, MIN_SQRT_PRICE, MAX_SQRT_PRICE, MAX_SQRT_PRICE + 1, 0, u128::MAX].iter().enumerate() {
+        let mut c = w.clone();
+        let ix = c.ix_init_pool_v2(&format!("PB{i}"), "C1", "A", "R", 64, *p);
+        probe_ix(&c, rec, &ix, tag("initialize_pool_price", i as u64));
+        // mints in the wrong (non-canonical) order
+        let mut c = w.clone();
+        let mut ix = c.ix_init_pool_v2(&format!("PR{i}"), "C1", "A", "R", 64, price_of(0));
+        let (ka, kb) = (ix.key("token_mint_a"), ix.key("token_mint_b"));
+        ix.set_key("token_mint_a", kb);
+        ix.set_key("token_mint_b", ka);
+        probe_ix(&c, rec, &ix, tag("initialize_pool_mint_order", i as u64));
+    }
+    // adaptive fee constants: each validity rule violated in turn (pool constants, preset constants, new tier)
+    let good = af_default();
+    let bad: Vec<AfConstants> = vec![
+        AfConstants { filter_period: 0, ..good.clone() },
+        AfConstants { decay_period: good.filter_period, ..good.clone() },
+        AfConstants { decay_period: 0, ..good.clone() },
+        AfConstants { reduction_factor: 10_000, ..good.clone() },
+        AfConstants { adaptive_fee_control_factor: 100_000, ..good.clone() },
+        AfConstants { max_volatility_accumulator: u32::MAX, ..good.clone() },
+        AfConstants { tick_group_size: 0, ..good.clone() },
+        AfConstants { tick_group_size: 48, ..good.clone() },
+        AfConstants { tick_group_size: 128, ..good.clone() },
+        AfConstants { major_swap_threshold_ticks: 0, ..good.clone() },
+        AfConstants { major_swap_threshold_ticks: 64 * 88 + 1, ..good.clone() },
+        AfConstants { reduction_factor: 9_999, adaptive_fee_control_factor: 99_999, tick_group_size: 1, major_swap_threshold_ticks: 64 * 88, max_volatility_accumulator: u32::MAX, ..good.clone() },
+        AfConstants { reduction_factor: 9_999, adaptive_fee_control_factor: 99_999, tick_group_size: 64, major_swap_threshold_ticks: 1, max_volatility_accumulator: u32::MAX / 64, ..good.clone() },
+    ];
+    for (i, c_) in bad.iter().enumerate() {
+        let ix = w.ix_set_adaptive_fee_constants("PA", c_, 127);
+        probe_ix(w, rec, &ix, tag("set_adaptive_fee_constants", i as u64));
+        let ix = w.ix_set_preset_adaptive_fee_constants("C1", 1024, c_);
+        probe_ix(w, rec, &ix, tag("set_preset_adaptive_fee_constants", i as u64));
+        let mut c = w.clone();
+        let f = c.funder;
+        let ix = c.ix_init_adaptive_fee_tier("C1", 4000 + i as u16, 64, f, f, 1000, c_);
+        probe_ix(&c, rec, &ix, tag("initialize_adaptive_fee_tier_constants", i as u64));
+    }
+}
+
+fn probe_ix(w: &World, rec: &mut Recorder, ix: &Ix, tag: Value) {
+    let mut c = w.clone();
+    rec.exec(&mut c, ix, false, tag);
+}
+
 pub fn run(cfg: &MatrixCfg, rec: &mut Recorder) {
     let mut w = build(cfg.seed, rec);
     let mut n = 0usize;
@@ -420,6 +499,8 @@ pub fn run(cfg: &MatrixCfg, rec: &mut Recorder) {
     }
     { let ix = w.ix_close_bundled_position("X9"); step(&mut w, rec, cfg, &mut n, ix); }
     { let ix = w.ix_delete_bundle("BU1"); step(&mut w, rec, cfg, &mut n, ix); }
+    // ---- C19: every setter with values around its bound (probes on copies)
+    bounds_probes(&mut w, rec);
     // authority rotations last (they change who the right signer is)
     { let ix = w.ix_set_collect_protocol_fees_authority("C1", "U3"); step(&mut w, rec, cfg, &mut n, ix); }
     { let ix = w.ix_set_reward_emissions_super_authority("C1", "U3"); step(&mut w, rec, cfg, &mut n, ix); }
